@@ -94,6 +94,16 @@ CHECKS = {
              "accumulate in call order. Held on the executions observed, with three recorded known findings.",
         note="Clause-order tables are the reference for non-SQLite dialects; only SQLite has an engine parser here.",
         ref="DESIGN.md section 4 C13"),
+    "C08": dict(
+        technique="context invariant at a get_sql hook (class-attribute wrappers) + probe depth-variance + cross-dialect token equality on the neutral subset",
+        text="During every root render the wrapped get_sql of every class records the context each nested render receives: dialect "
+             "(must be a Dialects member), quote characters, AS policy and Parameterizer identity must equal the root's; nine "
+             "dialect-sensitive probes placed at depth 1-3 inside eight nesting constructs (own-class and generic-class nested "
+             "builders, inline and parameterised) must render as at depth 0; seeded dialect-neutral programs must tokenise "
+             "identically under all six classes. Held on the executions observed for own-class trees; class-bound conventions "
+             "in generic-class nested builders are recorded known findings.",
+        note="The dialect's convention is defined as what its own class renders at depth 0; lexers per dialect.",
+        ref="DESIGN.md section 4 C08"),
     "C09": dict(
         technique="differential tokenisation isolates the row-limiting tail, matched against a per-dialect reference grammar; SQLite executes",
         text="The complete product limit x offset x setter/call order x ORDER BY x embedding position x dialect x "
